@@ -7,7 +7,10 @@ For random real parameter points above all thresholds and away from the poles it
     numpy's  K (1-iK)^-1  /  sqrt(rho)^* Khat (1 - i rho Khat)^-1 sqrt(rho),
   * || S^dagger S - 1 ||, || T - T^T ||  for S = 1 + 2iT,
   * formulate(..., parametrize=True) (the substituted result) against the two-stage evaluation, and its unitarity,
-  * configurations with a pole BELOW a channel threshold: PhaseSpaceFactorAbs with L = 0 must stay unitary;
+  * configurations with a pole BELOW the pseudo-threshold (ma-mb)^2 of an unequal-mass channel: rho(m_R^2) is real
+    positive there for all three variants, so every check is a hard obligation; rho(m_R^2) itself is compared with
+    sqrt((x-(ma+mb)^2)(x-(ma-mb)^2))/x (i times it inside the gap for PhaseSpaceFactor/Complex),
+  * configurations with a pole in the GAP (ma-mb)^2 < m_R^2 < (ma+mb)^2: PhaseSpaceFactorAbs with L = 0 must stay unitary;
     PhaseSpaceFactor / PhaseSpaceFactorComplex are not (imaginary rho(m_R^2) in the width normalisation):
     reported under the single signature kmatrix_subthreshold_pole_not_unitary, and only if T is symmetric, all
     differential checks pass and the same configuration with the poles moved above threshold is unitary.
@@ -123,6 +126,27 @@ def k_oracle(c):
     return out
 
 
+def pole_regions(c):
+    """(between, below): pole/channel pairs with (ma-mb)^2 < m^2 < (ma+mb)^2, resp. m^2 < (ma-mb)^2."""
+    between, below = [], []
+    for r, m in enumerate(c["m"]):
+        for ch, (a, b) in enumerate(zip(c["ma"], c["mb"])):
+            if (a - b) ** 2 < m * m < (a + b) ** 2:
+                between.append((r, ch))
+            elif m * m < (a - b) ** 2:
+                below.append((r, ch))
+    return between, below
+
+
+def rho_oracle(phsp: str, x: float, a: float, b: float) -> complex:
+    """rho(x) = sqrt((x-(a+b)^2)(x-(a-b)^2))/x: positive outside the gap between pseudo-threshold and
+    threshold; inside the gap |rho| for PhaseSpaceFactorAbs and i|rho| for the other two."""
+    mod = np.sqrt(abs((x - (a + b) ** 2) * (x - (a - b) ** 2))) / x
+    if (a - b) ** 2 < x < (a + b) ** 2 and phsp != "PhaseSpaceFactorAbs":
+        return 1j * mod
+    return complex(mod)
+
+
 def checks(c):
     """All raw checks on one configuration; list of (signature, what)."""
     n = c["n"]
@@ -158,6 +182,15 @@ def checks(c):
             fails.append(("that_not_symmetric", f"|That - That^T| = {np.abs(That - That.T).max():.3e}"))
         if np.abs(rho.imag).max() > 1e-12 or rho.real.min() <= 0:
             fails.append(("rho_not_real_positive/" + c["phsp"], f"rho above threshold = {rho}"))
+        for r, m in enumerate(c["m"]):
+            for ch in range(n):
+                a, b = c["ma"][ch], c["mb"][ch]
+                v = num(PHSP[c["phsp"]](sp.Float(m, 30) ** 2, sp.Float(a, 30), sp.Float(b, 30)))
+                o = rho_oracle(c["phsp"], m * m, a, b)
+                if abs(v - o) > 1e-9 * max(1.0, abs(o)):
+                    fails.append(("rho_at_pole_mismatch/" + c["phsp"],
+                                  f"{c['phsp']}(m_R^2={m * m}, {a}, {b}) = {v}, expected {o} "
+                                  f"(pseudo-threshold {(a - b) ** 2}, threshold {(a + b) ** 2})"))
     if np.abs(T - To).max() > tol:
         fails.append(("t_differs_from_formula/" + c["kind"], f"T differs from the defining formula by {np.abs(T - To).max():.3e}"))
     Sm = eye + 2j * T
@@ -207,7 +240,10 @@ def run_case(c):
     and the same configuration with all poles moved above threshold passes every check.
     PhaseSpaceFactorAbs (L = 0) with sub-threshold poles gets the normal checks: it must be unitary."""
     fails = checks(c)
-    if not (c.get("subthr") and c["kind"] == "rel" and c["phsp"] in ("PhaseSpaceFactor", "PhaseSpaceFactorComplex")):
+    between, _ = pole_regions(c) if c["kind"] == "rel" else ([], [])
+    if not (between and c["phsp"] in ("PhaseSpaceFactor", "PhaseSpaceFactorComplex")):
+        # includes poles BELOW a pseudo-threshold: rho(m_R^2) is real positive there for all three
+        # variants, so these are hard obligations
         return fails
     expected = [f for f in fails if f[0] in EXPECTED_BELOW]
     other = [f for f in fails if f[0] not in EXPECTED_BELOW]
@@ -218,10 +254,11 @@ def run_case(c):
     sib = [("above_threshold_sibling:" + sig, what) for sig, what in checks(sibling)]
     if other or sib:
         return other + sib
-    below = [x for x in c["m"] if any(x < a + b for a, b in zip(c["ma"], c["mb"]))]
+    pairs = [(c["m"][r], (c["ma"][ch], c["mb"][ch])) for r, ch in between]
     return [(KNOWN, f"RelativisticKMatrix, {c['phsp']}, L={c['L']}, n_channels={c['n']}, masses "
-                    f"{list(zip(c['ma'], c['mb']))}, poles m={c['m']} ({len(below)} below a threshold), s={c['s']}: "
-                    f"{nonunitary[0][1]}; T symmetric; with the poles moved to {c['m_above']} (all above threshold) unitary")]
+                    f"{list(zip(c['ma'], c['mb']))}, poles m={c['m']}, s={c['s']}: pole/channel pairs with "
+                    f"(ma-mb)^2 < m_R^2 < (ma+mb)^2: {pairs}; {nonunitary[0][1]}; T symmetric; with the poles moved to "
+                    f"{c['m_above']} (all above threshold) unitary")]
 
 
 def gen_cases(seed: int, n: int):
@@ -256,6 +293,32 @@ def gen_cases(seed: int, n: int):
                     "gamma": [[round(rng.uniform(0.3, 1.5) * rng.choice([1, 1, -1]), 6) for _ in range(nch)]
                               for _ in range(npoles)],
                     "full": nch <= 2 and npoles <= 2 and (absv or i % 2 == 0)})
+    names = list(PHSP)
+    for i in range(45 if thorough else 6):
+        nch = rng.choice([2, 2, 3]) if thorough else 2
+        npoles = rng.choice([1, 2, 3] if thorough else [1, 2])
+        ma = [round(rng.uniform(0.1, 0.2), 6), round(rng.uniform(0.9, 1.2), 6)]
+        mb = [round(rng.uniform(0.1, 0.2), 6), round(rng.uniform(0.1, 0.25), 6)]
+        if nch == 3:
+            ma.append(round(ma[0] * 0.9, 6))
+            mb.append(round(mb[0] * 0.8, 6))
+        thr = max(a + b for a, b in zip(ma, mb))
+        lo, hi = (ma[0] + mb[0]) * 1.1, (ma[1] - mb[1]) * 0.92
+        nbelow = 1 if npoles == 1 or rng.random() < 0.6 else 2
+        while True:
+            m = [round(rng.uniform(lo, hi), 6) for _ in range(nbelow)]
+            m += [round(thr * 1.08 + rng.uniform(0.05, 1.6), 6) for _ in range(npoles - nbelow)]
+            s = round((thr * 1.05 + rng.uniform(0.02, 1.8)) ** 2, 6)
+            if all(abs(s - x * x) > 0.12 for x in m):
+                break
+        out.append({"kind": "rel", "n": nch, "npoles": npoles, "below_pseudo": True,
+                    "L": rng.choice([0, 1, 2, 3, 4]), "phsp": names[i % 3],
+                    "d": round(rng.uniform(0.5, 3.0), 6), "s": s, "m": m, "m_above": m, "ma": ma, "mb": mb,
+                    "Gamma": [[round(rng.uniform(0.05, 0.6), 6) for _ in range(nch)] for _ in range(npoles)],
+                    "gamma": [[round(rng.uniform(0.3, 1.5) * rng.choice([1, 1, -1]), 6) for _ in range(nch)]
+                              for _ in range(npoles)],
+                    "full": nch <= 2 and npoles <= 2 and i % 2 == 0})
+        assert not pole_regions(out[-1])[0] and pole_regions(out[-1])[1]
     for i in range(n):
         kind = "nr" if i % 3 == 0 else "rel"
         nch = rng.choice([1, 2, 2, 3, 3] if thorough else [1, 2, 2])
@@ -300,7 +363,7 @@ def main():
             fails = [("exception_" + type(exc).__name__ + "/" + c["kind"], f"{type(exc).__name__}: {exc}"[:300])]
         nev += 1
         distinct.add(json.dumps(c, sort_keys=True))
-        tag = f"{c['kind']}/n{c['n']}/{c['phsp']}" + ("/pole-below-threshold" if c.get("subthr") else "")
+        tag = f"{c['kind']}/n{c['n']}/{c['phsp']}" + ("/pole-in-gap" if c.get("subthr") else "") + ("/pole-below-pseudothreshold" if c.get("below_pseudo") else "")
         kinds[tag] = kinds.get(tag, 0) + 1
         if len(samples) < 3 and c["kind"] not in [s_["kind"] for s_ in samples]:
             samples.append({k: c[k] for k in ("kind", "n", "npoles", "L", "phsp", "s", "m")})
